@@ -99,9 +99,12 @@ func val(typ string, k int) float64 {
 }
 
 func initVals(typ string, n, base int) []float64 {
+	// distinct values in a scrambled order (7919 is prime and larger than any generated root): with values rising
+	// along the storage the first element of every view would be its minimum and the last its maximum, and
+	// Minimum / Maximum would never have to look past one element
 	v := make([]float64, n)
 	for i := range v {
-		v[i] = val(typ, base+i)
+		v[i] = val(typ, base+(i*7919+n/3)%n)
 	}
 	return v
 }
